@@ -100,6 +100,12 @@ WINDOW_GEN += ["SELECT id, %s OVER (%s) AS r FROM t1" % (f, w) for f in ('sum(a)
 WINDOW_GEN += ["SELECT id, %s OVER (ORDER BY %s %s BETWEEN %s AND %s) AS r FROM t1" % (f, k, unit, lo, hi)
                for f in ('sum(a)', 'count(a)', 'max(a)') for k in ('b', 'id DESC') for unit in ('ROWS', 'RANGE')
                for lo, hi in (('UNBOUNDED PRECEDING', 'CURRENT ROW'), ('CURRENT ROW', 'UNBOUNDED FOLLOWING'), ('UNBOUNDED PRECEDING', 'UNBOUNDED FOLLOWING'), ('CURRENT ROW', 'CURRENT ROW'))]
+# the frame clause in other spellings (the parser keeps the words as written): letter case of each word, runs of blanks / line breaks
+WINDOW_GEN += ["SELECT id, %s OVER (%sORDER BY %s %s) AS r FROM t1" % (f, part, k, fr)
+               for f in ('sum(a)', 'count(a)') for part in ('', 'PARTITION BY b ') for k in ('b', 'a DESC')
+               for fr in ('rows between unbounded preceding and current row', 'Rows Between Current Row And Unbounded Following',
+                          'range between current row and unbounded following', 'rOWS  BETWEEN\n unbounded   PRECEDING and CURRENT\trow',
+                          'ROWS between CURRENT ROW and current row', 'Range\nBetween Unbounded Preceding And Unbounded Following')]
 WINDOW_GEN += ["SELECT id, rank() OVER (ORDER BY a, b DESC) AS r FROM t1 ORDER BY id LIMIT 2",
                "SELECT id, rank() OVER (ORDER BY a) AS r, sum(a) OVER (PARTITION BY b) AS s FROM t1 WHERE a IS NOT NULL",
                "SELECT s.id FROM (SELECT id, row_number() OVER (PARTITION BY b ORDER BY a DESC, id) AS rn FROM t1) AS s WHERE s.rn = 1",
